@@ -1,5 +1,6 @@
 SPECIFICATION Spec
 CONSTANT Grid <- GridMutant
+CONSTANT ShuffleAll = TRUE
 CONSTANT Canon <- MutCanon
 PROPERTY ShuffleKeepsSummary
 CHECK_DEADLOCK FALSE
